@@ -574,6 +574,14 @@ func (fx *FuncCtx) specCall(env *specEnv, x *ast.CallExpr) sval {
 		return sval{fx.mathIsNaN(argT(0)), nil}
 	case "isInf":
 		return sval{fx.mathIsInf(argT(0), 0), nil}
+	case "same":
+		// identity of values (bit-for-bit for floats), as opposed to IEEE ==
+		a, ok1 := unwrapScalar(arg(0).v)
+		b, ok2 := unwrapScalar(arg(1).v)
+		if !ok1 || !ok2 || a.Sort != b.Sort {
+			fx.unsupportedf("spec: same() needs two scalars of one sort")
+		}
+		return sval{Eq(a, b), nil}
 	case "sameSlice":
 		a, _ := arg(0).v.(SliceV)
 		b, _ := arg(1).v.(SliceV)
